@@ -56,16 +56,17 @@ PERIODS = [856, 808, 762, 720, 678, 640, 604, 570, 538, 508, 480, 453, 428, 404,
            254, 240, 226, 214, 202, 190, 180, 170, 160, 151, 143, 135, 127, 120, 113]
 
 
-def synth_mod(rng, compressible=True):
-    """A small valid 4-channel ProTracker module (M.K.)."""
-    nsmp = rng.randint(1, 4)
-    npat = rng.randint(1, 2)
+def synth_mod(rng, compressible=True, tiny=False):
+    """A small valid 4-channel ProTracker module (M.K.).  `tiny`: one pattern, one short sample,
+    a handful of notes -- deflates to < 256 bytes, so that single-byte faults reach every size field."""
+    nsmp = 1 if tiny else rng.randint(1, 4)
+    npat = 1 if tiny else rng.randint(1, 2)
     title = ("c09 synth %d" % rng.randrange(10 ** 6)).encode()[:20].ljust(20, b"\0")
     hdr = bytearray(title)
     samples = []
     for i in range(31):
         if i < nsmp:
-            n = rng.randint(8, 200 if compressible else 600) * 2
+            n = rng.randint(8, 12 if tiny else 200 if compressible else 600) * 2
             if compressible:
                 base = bytes(rng.randrange(256) for _ in range(rng.randint(2, 8)))
                 data = (base * (n // len(base) + 1))[:n]
@@ -84,7 +85,7 @@ def synth_mod(rng, compressible=True):
     pats = bytearray()
     for _ in range(npat):
         p = bytearray(1024)
-        for _ in range(rng.randint(4, 24) if compressible else 160):
+        for _ in range(rng.randint(2, 4) if tiny else rng.randint(4, 24) if compressible else 160):
             row, ch = rng.randrange(64), rng.randrange(4)
             per = rng.choice(PERIODS)
             ins = rng.randint(1, nsmp)
